@@ -10,6 +10,7 @@ package c06
 import (
 	"context"
 	"fmt"
+	"net"
 	"sort"
 	"strings"
 	"testing"
@@ -145,7 +146,7 @@ func run(t *testing.T, tape *simrt.Tape) *common.Outcome {
 	subBuf := []int{256, 1, 0}[g.Weighted(4, 1, 1)]
 	stall := []int{0, 0, 15, 60}[g.Int(4)]
 	type step struct {
-		kind  int // 0 S dials P, 1 P dials S (+ early stream), 2 S closes one conn, 3 P closes its conns, 4 S.ClosePeer, 5 S.Close, 6 sleep
+		kind  int // 0 S dials P, 1 P dials S (+ early stream), 2 S closes one conn, 3 P closes its conns, 4 S.ClosePeer, 5 S.Close, 6 sleep, 7 P dials S over its LIMITED path (+ early stream), 8 P closes its limited conns
 		peer  int
 		sleep time.Duration
 	}
@@ -155,7 +156,7 @@ func run(t *testing.T, tape *simrt.Tape) *common.Outcome {
 	for a := range actors {
 		n := g.Range(1, 4)
 		for i := 0; i < n; i++ {
-			actors[a] = append(actors[a], step{kind: g.Weighted(5, 5, 3, 3, 2, 1, 2), peer: g.Int(nPeers), sleep: sleeps[g.Int(len(sleeps))]})
+			actors[a] = append(actors[a], step{kind: g.Weighted(5, 5, 3, 3, 2, 1, 2, 4, 2), peer: g.Int(nPeers), sleep: sleeps[g.Int(len(sleeps))]})
 		}
 	}
 	o.Logf("peers=%d notifiees=%d slowSub=%v subBuf=%d stall=%d", nPeers, nNotif, slowSub, subBuf, stall)
@@ -181,13 +182,27 @@ func run(t *testing.T, tape *simrt.Tape) *common.Outcome {
 	res := simrt.Run(t, simrt.Config{MaxSteps: 300000, StallPermille: stall, IdleLimit: time.Hour, TraceCap: 3000}, tape.S, func() {
 		n := simnet.New(tape.S, simnet.Config{Mode: simnet.Whole})
 		bus := eventbus.NewBus()
-		S, err := simhost.New(n, simhost.Opts{Key: simhost.DetKey(1), IP: "10.0.0.1", Port: 4001, Security: "insecure", Bus: bus})
+		// connections whose remote address lies in 10.0.2.0/24 are LIMITED for S (what the circuit transport
+		// does for relayed connections): every peer has a second node with the same identity there
+		isLimited := func(a net.Addr) bool {
+			ta, ok := a.(*net.TCPAddr)
+			return ok && ta.IP.To4() != nil && ta.IP.To4()[2] == 2
+		}
+		S, err := simhost.New(n, simhost.Opts{Key: simhost.DetKey(1), IP: "10.0.0.1", Port: 4001, Security: "insecure", Bus: bus, Limited: isLimited})
 		if err != nil {
 			o.Trouble = err.Error()
 			return
 		}
-		var peers []*simhost.Node
+		var peers, lpeers []*simhost.Node
 		for i := 0; i < nPeers; i++ {
+			lp, err := simhost.New(n, simhost.Opts{Key: simhost.DetKey(10 + i), IP: fmt.Sprintf("10.0.2.%d", i+1), Port: 4001, Security: "insecure"})
+			if err != nil {
+				o.Trouble = err.Error()
+				return
+			}
+			lpeers = append(lpeers, lp)
+			lp.PS.AddAddrs(S.ID, []ma.Multiaddr{S.Addr}, peerstore.PermanentAddrTTL)
+			lp.Swarm.SetStreamHandler(func(s network.Stream) { s.Reset() })
 			p, err := simhost.New(n, simhost.Opts{Key: simhost.DetKey(10 + i), IP: fmt.Sprintf("10.0.1.%d", i+1), Port: 4001, Security: "insecure"})
 			if err != nil {
 				o.Trouble = err.Error()
@@ -211,7 +226,7 @@ func run(t *testing.T, tape *simrt.Tape) *common.Outcome {
 		defer func() {
 			closeS()
 			S.Close()
-			for _, p := range peers {
+			for _, p := range append(peers, lpeers...) {
 				p.Close()
 			}
 		}()
@@ -304,6 +319,17 @@ func run(t *testing.T, tape *simrt.Tape) *common.Outcome {
 						closeS()
 					case 6:
 						simrt.TimeSleep(st.sleep)
+					case 7:
+						if c, err := lpeers[st.peer].Swarm.DialPeer(ctx, S.ID); err == nil {
+							if s, err := c.NewStream(ctx); err == nil {
+								s.Write([]byte{1})
+								s.Reset()
+							}
+						}
+					case 8:
+						for _, c := range lpeers[st.peer].Swarm.ConnsToPeer(S.ID) {
+							c.Close()
+						}
 					}
 					cancel()
 					if st.sleep > 0 && st.kind != 6 {
@@ -503,6 +529,20 @@ func run(t *testing.T, tape *simrt.Tape) *common.Outcome {
 	for _, e := range events {
 		if e.state == network.NotConnected {
 			o.Probe("notconnected-event")
+			break
+		}
+	}
+	for i := 1; i < len(events); i++ {
+		if events[i].peer == events[i-1].peer && events[i].state == network.Limited && events[i-1].state == network.Connected {
+			o.Probe("downgrade-connected-to-limited")
+		}
+		if events[i].peer == events[i-1].peer && events[i].state == network.Connected && events[i-1].state == network.Limited {
+			o.Probe("upgrade-limited-to-connected")
+		}
+	}
+	for _, r := range h.conns {
+		if r.conn.Stat().Limited {
+			o.Probe("limited-connection")
 			break
 		}
 	}
